@@ -56,11 +56,17 @@ func Build(eps []EP, tag string) []*domain.Endpoint {
 	return out
 }
 
+// IsRoutable is the harness's own statement of which statuses may receive traffic
+// (healthy, busy, warming) — deliberately not Olla's EndpointStatus.IsRoutable.
+func IsRoutable(status string) bool {
+	return status == "healthy" || status == "busy" || status == "warming"
+}
+
 // Routable reports the indices of routable members.
 func Routable(eps []EP) []int {
 	var r []int
 	for i, e := range eps {
-		if domain.EndpointStatus(e.Status).IsRoutable() {
+		if IsRoutable(e.Status) {
 			r = append(r, i)
 		}
 	}
